@@ -261,7 +261,7 @@ class LazyLocalImage(pydyf.Object):
 
 class SVGImage:
     def __init__(self, tree, base_url, url_fetcher, context):
-        self._svg = SVG(tree, base_url)
+        self._svg = SVG(tree, base_url, url_fetcher)
         self._base_url = base_url
         self._url_fetcher = url_fetcher
         self._context = context
